@@ -402,12 +402,21 @@ struct TracerProviderSubject : Subject
     o.max_queue_size        = q;
     o.max_export_batch_size = b;
     o.schedule_delay_millis = d;
-    procs.emplace_back(new sdktrace::BatchSpanProcessor(std::unique_ptr<sdktrace::SpanExporter>(new RecSpanExporter(sc)), o));
-    for (int i = 0; i < extra; ++i)
+    // the processor under observation sits at a seeded position among the decoys, and decoy exporters fail
+    // their Export / ForceFlush / Shutdown at random: a provider must drive every processor regardless
+    int pos = static_cast<int>((seed >> 8) % static_cast<uint64_t>(extra + 1));
+    for (int i = 0; i <= extra; ++i)
     {
+      if (i == pos)
+        procs.emplace_back(new sdktrace::BatchSpanProcessor(std::unique_ptr<sdktrace::SpanExporter>(new RecSpanExporter(sc)), o));
+      if (i == extra)
+        break;
       auto ds  = std::make_shared<Script>();
       ds->seed = seed + static_cast<uint64_t>(i);
       ds->id   = static_cast<uint64_t>(i + 1);
+      ds->export_fail    = ((seed >> (12 + i)) & 3) == 0;
+      ds->flush_false    = ((seed >> (16 + i)) & 3) == 0;
+      ds->shutdown_false = ((seed >> (20 + i)) & 1) == 0;
       decoys.push_back(ds);
       // decoy exporters log into the same event log; give their batch ids a disjoint range
       ds->batch_ids.store(1000000ull * static_cast<uint64_t>(i + 1), std::memory_order_relaxed);
@@ -455,12 +464,19 @@ struct LoggerProviderSubject : Subject
     o.max_queue_size        = q;
     o.max_export_batch_size = b;
     o.schedule_delay_millis = d;
-    procs.emplace_back(new sdklogs::BatchLogRecordProcessor(std::unique_ptr<sdklogs::LogRecordExporter>(new RecLogExporter(sc)), o));
-    for (int i = 0; i < extra; ++i)
+    int pos = static_cast<int>((seed >> 8) % static_cast<uint64_t>(extra + 1));
+    for (int i = 0; i <= extra; ++i)
     {
+      if (i == pos)
+        procs.emplace_back(new sdklogs::BatchLogRecordProcessor(std::unique_ptr<sdklogs::LogRecordExporter>(new RecLogExporter(sc)), o));
+      if (i == extra)
+        break;
       auto ds  = std::make_shared<Script>();
       ds->seed = seed + static_cast<uint64_t>(i);
       ds->id   = static_cast<uint64_t>(i + 1);
+      ds->export_fail    = ((seed >> (12 + i)) & 3) == 0;
+      ds->flush_false    = ((seed >> (16 + i)) & 3) == 0;
+      ds->shutdown_false = ((seed >> (20 + i)) & 1) == 0;
       ds->batch_ids.store(1000000ull * static_cast<uint64_t>(i + 1), std::memory_order_relaxed);
       decoys.push_back(ds);
       if ((seed >> i) & 1)
